@@ -670,8 +670,20 @@ func (w *world) checkKeygen() bool {
 			return false
 		}
 	}
+	if w.gpk.Equals(crypto.IdentityBLSPublicKey()) {
+		w.viol("C06", "keygen", "keygen.identity-group-key", "BLSThresholdKeyGen(%d,%d) returned the identity as group key (a_0 = 0)", w.n, w.t)
+		return false
+	}
 	seq := append([]crypto.PublicKey{w.gpk}, w.pks...)
 	for k := 0; k <= w.t; k++ {
+		if k == w.t {
+			// seq holds the t-th finite differences: the constant t!*a_t*g2. The identity means
+			// a_t = 0: a polynomial of degree < t, which FEWER than t+1 participants can interpolate
+			if seq[0].Equals(crypto.IdentityBLSPublicKey()) {
+				w.viol("C06", "keygen", "keygen.degree-too-low", "group key and public shares of BLSThresholdKeyGen(%d,%d) lie on a polynomial of degree < t", w.n, w.t)
+				return false
+			}
+		}
 		next := make([]crypto.PublicKey, len(seq)-1)
 		for i := range next {
 			d, err := crypto.RemoveBLSPublicKeys(seq[i+1], []crypto.PublicKey{seq[i]})
@@ -689,7 +701,6 @@ func (w *world) checkKeygen() bool {
 			return false
 		}
 	}
-	// degree exactly t is not observable from n+1 points when t = n-1... (no check)
 	w.out.Probes["keygen_consistent"]++
 	return true
 }
